@@ -1,1 +1,79 @@
-pub fn main(_args: &[String]) -> i32 { 2 }
+//! C19: expansion is a deterministic pure function of the derive input.
+//! `c19 list` | `c19 seq i,j,k [--thread]` (expands the inputs in order, prints the last expansion)
+//! | `c19 hasher` (observations of the deterministic-hasher seam).
+use crate::*;
+use std::hash::{BuildHasher, Hash, Hasher};
+
+pub const INPUTS: &[(&str, &str)] = &[
+    ("TryInto", "#[try_into(owned, ref, ref_mut)] enum E { A(u8), B(u16), C(u8, u16), D(String), E2(u8), F(u16, u8), G, H { x: i64 } }"),
+    ("FromStr", "enum E { Foo, FOO, Bar, Baz, Qux, qux, Quux }"),
+    ("Mul", "struct S(u8, u16, u32, Vec<u8>, u8);"),
+    ("MulAssign", "struct S { a: u8, b: u16, c: u32, d: u64 }"),
+    ("Error", "enum E<A, B, C> { X { source: A }, Y(B), Z { #[error(source)] c: C, other: u8 }, W(#[error(source)] Box<A>, u8) }"),
+    ("From", "enum E { #[from(u8, u16, u32)] A(u64), #[from(forward)] B(String), C(i8, i16), #[from((i32, i64), (i8, i8))] D { x: i64, y: i64 } }"),
+    ("Into", "#[into(owned(u16, u32, u64), ref(u8), ref_mut)] struct S(u8);"),
+    ("Display", "#[display(\"{a} {b:?} {c:x}\")] #[display(bound(D: Clone, A: Copy))] struct S<A, B, C, D> { a: A, b: B, c: C, d: D }"),
+    ("Debug", "enum E<A, B, C> { X(A, B), Y { c: C, #[debug(skip)] a: A }, #[debug(\"{_0:?}\")] Z(B) }"),
+    ("AsRef", "struct S { #[as_ref(str, [u8], String)] a: String, #[as_ref] b: u8, #[as_ref(forward)] c: Vec<u16> }"),
+    ("Unwrap", "#[unwrap(ref, ref_mut)] enum E<T> { A(T), B(u8, T), C, D(Vec<T>) }"),
+    ("TryFrom", "#[try_from(repr)] #[repr(i16)] enum E { A = -3, B, C = 7, D(u8), F }"),
+    ("Add", "enum E { A(u8), B { x: u16, y: u32 }, C, D(u8, u8) }"),
+    ("MulAssign", "struct S<T, U>(T, U, T, Vec<U>);"),
+];
+
+pub fn main(args: &[String]) -> i32 {
+    match args.first().map(|s| s.as_str()).unwrap_or("") {
+        "list" => {
+            for (i, (d, item)) in INPUTS.iter().enumerate() {
+                println!("{}", serde_json::json!({"i": i, "derive": d, "item": item}));
+            }
+            0
+        }
+        "seq" => {
+            let seq: Vec<usize> = args[1].split(',').filter(|s| !s.is_empty()).map(|s| s.parse().unwrap()).collect();
+            let on_thread = args.iter().any(|a| a == "--thread");
+            let work = move || {
+                let mut last = String::new();
+                for i in seq {
+                    let (d, item) = INPUTS[i];
+                    match expand_str(find_derive(d).unwrap(), item) {
+                        Outcome::Ok(t) => last = t,
+                        other => {
+                            last = format!("NOT-OK {other:?}");
+                        }
+                    }
+                }
+                last
+            };
+            let out = if on_thread {
+                std::thread::Builder::new().stack_size(3 << 20).spawn(work).unwrap().join().unwrap()
+            } else {
+                work()
+            };
+            println!("{out}");
+            0
+        }
+        "hasher" => {
+            // two separately constructed hashers must agree, and iteration order must be a function of the keys only
+            let h = |s: &str| {
+                let mut a = crate::utils::DeterministicState::default().build_hasher();
+                s.hash(&mut a);
+                a.finish()
+            };
+            let mut m: crate::utils::HashMap<String, usize> = Default::default();
+            let mut set: crate::utils::HashSet<String> = Default::default();
+            for i in 0..64 {
+                m.insert(format!("key{i}"), i);
+                set.insert(format!("k{}", i * 7919 % 101));
+            }
+            let order: Vec<usize> = m.values().cloned().collect();
+            let sorder: Vec<String> = set.iter().cloned().collect();
+            println!(
+                "{}",
+                serde_json::json!({"h1": h("derive_more"), "h2": h("derive_more"), "h3": h("other"), "map_order": order, "set_order": sorder})
+            );
+            0
+        }
+        _ => 2,
+    }
+}
